@@ -129,3 +129,4 @@ META["C18"] = dict(
         "belongs to the handler, not to the filter: 'banned for at least the configured duration' is judged on the recorded expiry instant.")
 HOOK_COMMITS.append("69be644")
 HOOK_COMMITS.append("655814b")
+HOOK_COMMITS.append("f73ad0c")
